@@ -45,6 +45,9 @@ pub enum SeedSpec {
     /// a valid image in which one sample table is replaced by a very long one (10^5 entries) in
     /// ascending, descending, random, constant or zigzag order
     BigTable { seed: u64 },
+    /// five tracks (one per kind) with every metadata / layout variant applied at once and a
+    /// leading free box in every container that tolerates one
+    MetaAll { seed: u64 },
 }
 
 impl SeedSpec {
@@ -65,6 +68,7 @@ impl SeedSpec {
             SeedSpec::Hybrid { .. } => "hybrid",
             SeedSpec::Nest { .. } => "nest",
             SeedSpec::BigTable { .. } => "big_table",
+            SeedSpec::MetaAll { .. } => "meta_all",
         }
     }
 }
@@ -345,6 +349,184 @@ fn meta_box(r: &mut Rng) -> Vec<u8> {
     }
 }
 
+/// One structural edit of a muxer-written image (inside moov; chunk offsets stay valid).
+fn meta_edit(img: &mut Vec<u8>, r: &mut Rng, variant: u64) {
+    let nodes = walk(img);
+    let Some(mi) = nodes.iter().position(|n| n.depth == 0 && n.is(b"moov")) else { return };
+    match variant {
+        9 | 10 => {
+            // handler with a different (long / multi-byte / odd) name inside a trak
+            let cands: Vec<usize> = nodes.iter().enumerate().filter(|(_, n)| n.is(b"hdlr") && n.path.ends_with("mdia/hdlr")).map(|(i, _)| i).collect();
+            if cands.is_empty() {
+                return;
+            }
+            let hi = cands[r.usize_below(cands.len())];
+            let h = &nodes[hi];
+            if h.size < h.hdr + 24 {
+                return;
+            }
+            let mut handler = [0u8; 4];
+            handler.copy_from_slice(&img[h.body() + 8..h.body() + 12]);
+            let name = g_text(r);
+            let nb = hdlr_box(&handler, &name);
+            let (st, sz) = (h.start, h.size);
+            splice(img, &nodes, h.parent, st, sz, &nb);
+        }
+        6 => {
+            // edit list inside a trak (version 0 or 1, 0-3 entries)
+            let Some(ti) = nodes.iter().position(|n| n.is(b"trak")) else { return };
+            let v1 = r.chance(1, 2);
+            let n = r.below(4) as u32;
+            let mut b = Vec::new();
+            b.extend_from_slice(&n.to_be_bytes());
+            for _ in 0..n {
+                if v1 {
+                    b.extend_from_slice(&r.next_u64().to_be_bytes());
+                    b.extend_from_slice(&(r.next_u64() >> 1).to_be_bytes());
+                } else {
+                    b.extend_from_slice(&r.next_u32().to_be_bytes());
+                    b.extend_from_slice(&(r.next_u32() >> 1).to_be_bytes());
+                }
+                b.extend_from_slice(&1u16.to_be_bytes());
+                b.extend_from_slice(&0u16.to_be_bytes());
+            }
+            let edts = bx(b"edts", &full(b"elst", v1 as u8, 0, &b));
+            let at = nodes[ti].end();
+            splice(img, &nodes, Some(ti), at, 0, &edts);
+        }
+        7 => {
+            // hvcC with parameter-set arrays (the muxer writes none)
+            let Some(hi) = nodes.iter().position(|n| n.is(b"hvcC")) else { return };
+            let h = &nodes[hi];
+            if h.size < h.hdr + 23 {
+                return;
+            }
+            let mut body = img[h.body()..h.body() + 22].to_vec();
+            let narr = 1 + r.below(3) as u8;
+            body.push(narr);
+            for a in 0..narr {
+                body.push(0x80 | (32 + a));
+                let nn = 1 + r.below(2) as u16;
+                body.extend_from_slice(&nn.to_be_bytes());
+                for _ in 0..nn {
+                    let l = r.below(24) as u16;
+                    body.extend_from_slice(&l.to_be_bytes());
+                    let mut d = vec![0u8; l as usize];
+                    r.fill(&mut d);
+                    body.extend_from_slice(&d);
+                }
+            }
+            let nb = bx(b"hvcC", &body);
+            let (st, sz) = (h.start, h.size);
+            splice(img, &nodes, h.parent, st, sz, &nb);
+        }
+        8 => {
+            // an extra trak-level 'tref' / moov-level 'iods' style unknown boxes
+            let unk = bx(if r.chance(1, 2) { b"iods" } else { b"tref" }, &vec![0u8; 4 + r.below(12) as usize]);
+            let at = nodes[mi].end();
+            splice(img, &nodes, Some(mi), at, 0, &unk);
+        }
+        0 | 1 => {
+            let udta = bx(b"udta", &meta_box(r));
+            let at = nodes[mi].end();
+            splice(img, &nodes, Some(mi), at, 0, &udta);
+        }
+        2 => {
+            let m = meta_box(r);
+            let at = nodes[mi].end();
+            splice(img, &nodes, Some(mi), at, 0, &m);
+        }
+        3 => {
+            // free box at a random child boundary of a random container
+            let conts: Vec<usize> = nodes.iter().enumerate().filter(|(_, n)| n.kids.is_some() && n.start >= nodes[mi].start && !n.is(b"stsd") && !n.is(b"dref")).map(|(i, _)| i).collect();
+            if conts.is_empty() {
+                return;
+            }
+            let ci = conts[r.usize_below(conts.len())];
+            // behind the last child or in front of the first one (a parser that expects a
+            // particular first child then takes its "something else comes first" path)
+            // (the library insists on hvcC as the first child of hev1: "hvcc not found")
+            let at = if r.chance(1, 2) || nodes[ci].is(b"hev1") { nodes[ci].end() } else { nodes[ci].kids.map(|k| k.0).unwrap_or(nodes[ci].end()) };
+            let f = bx(if r.chance(1, 2) { b"free" } else { b"skip" }, &vec![0u8; r.below(9) as usize]);
+            splice(img, &nodes, Some(ci), at, 0, &f);
+        }
+        4 => {
+            // 64-bit size header on a random box inside moov (or moov itself)
+            let cands: Vec<usize> = nodes.iter().enumerate().filter(|(_, n)| n.start >= nodes[mi].start && n.hdr == 8).map(|(i, _)| i).collect();
+            if cands.is_empty() {
+                return;
+            }
+            let bi = cands[r.usize_below(cands.len())];
+            let n = &nodes[bi];
+            let mut h = Vec::new();
+            h.extend_from_slice(&1u32.to_be_bytes());
+            h.extend_from_slice(&n.typ);
+            h.extend_from_slice(&((n.size + 8) as u64).to_be_bytes());
+            // replace the 8-byte header by the 16-byte one; ancestors grow by 8
+            let start = n.start;
+            splice(img, &nodes, n.parent, start, 8, &h);
+        }
+        _ => {
+            // wrap esds of an mp4a entry into a QuickTime 'wave' box
+            let Some(ei) = nodes.iter().position(|n| n.is(b"esds")) else { return };
+            let e = &nodes[ei];
+            let esds = img[e.start..e.end()].to_vec();
+            let wave = bx(b"wave", &cat(&[&bx(b"frma", b"mp4a"), &esds, &bx(&[0, 0, 0, 0], &[])]));
+            let (s, l) = (e.start, e.size);
+            splice(img, &nodes, e.parent, s, l, &wave);
+        }
+    }
+}
+
+/// "Everything at once": one track of every kind, three samples each, every structural edit of
+/// `meta_edit` applied (edit lists, hvcC arrays, wave-wrapped esds, udta/meta/ilst, meta in moov,
+/// unknown boxes, a 64-bit header, rich handler names) and a leading `free` box in every container
+/// in which the library tolerates one (decided by trial: the image must still open).
+pub fn meta_all_image(seed: u64) -> Vec<u8> {
+    use std::io::Cursor;
+    let mut r = Rng::new(seed ^ 0xA11A);
+    let o = small_opts();
+    let mut ops = Vec::new();
+    let kinds = [Kind::Avc, Kind::Aac, Kind::Hevc, Kind::Vp9, Kind::Ttxt];
+    for k in kinds {
+        let mut tc = gen_track_cfg(&mut r, &o, &[k]);
+        tc.timescale = 1000;
+        ops.push(Op::AddTrack(tc));
+    }
+    let mut tag = 1u32;
+    for round in 0..3u32 {
+        for t in 1..=kinds.len() as u32 {
+            ops.push(Op::Write { track_id: t, s: SampleW { payload: Payload::Stamp { len: 5 + r.below(40) as u32, tag }, duration: 400 + 100 * round, offset: if t == 1 { 40 * round as i32 } else { 0 }, sync: round != 1, start_time: 0 } });
+            tag += 1;
+        }
+    }
+    ops.push(Op::End);
+    let sc = MuxScenario { cfg: MovieCfg { major: *b"isom", minor: 512, compat: vec![*b"isom", *b"mp41"], timescale: 1000 }, ops, start_pos: 0, io: IoKnobs::plain(), preexisting: 0, fault: None };
+    let mut img = mux_bytes(&sc);
+    let opens = |b: &[u8]| mp4::Mp4Reader::read_header(Cursor::new(b.to_vec()), b.len() as u64).is_ok();
+    for v in [6u64, 7, 5, 0, 2, 8, 4, 9, 6] {
+        let mut trial = img.clone();
+        meta_edit(&mut trial, &mut r, v);
+        if opens(&trial) {
+            img = trial;
+        }
+    }
+    // leading free boxes, innermost and last containers first (earlier offsets stay valid)
+    let mut starts: Vec<usize> = walk(&img).iter().filter(|n| n.kids.is_some() && n.depth >= 1).map(|n| n.start).collect();
+    starts.sort_unstable_by(|a, b| b.cmp(a));
+    for st in starts {
+        let nodes = walk(&img);
+        let Some(ci) = nodes.iter().position(|n| n.start == st && n.kids.is_some()) else { continue };
+        let at = nodes[ci].kids.map(|k| k.0).unwrap_or(nodes[ci].end());
+        let mut trial = img.clone();
+        splice(&mut trial, &nodes, Some(ci), at, 0, &bx(b"free", &[0u8; 4]));
+        if opens(&trial) {
+            img = trial;
+        }
+    }
+    img
+}
+
 /// Muxer output (moov last) extended inside moov; chunk offsets stay valid.
 pub fn meta_image(seed: u64) -> Vec<u8> {
     let mut r = Rng::new(seed ^ 0x3E7A);
@@ -353,131 +535,8 @@ pub fn meta_image(seed: u64) -> Vec<u8> {
     // 1. udta/meta at the end of moov (or meta directly in moov / in a trak)
     let edits = 1 + r.below(3);
     for _ in 0..edits {
-        let nodes = walk(&img);
-        let Some(mi) = nodes.iter().position(|n| n.depth == 0 && n.is(b"moov")) else { break };
-        match r.below(11) {
-            9 | 10 => {
-                // handler with a different (long / multi-byte / odd) name inside a trak
-                let cands: Vec<usize> = nodes.iter().enumerate().filter(|(_, n)| n.is(b"hdlr") && n.path.ends_with("mdia/hdlr")).map(|(i, _)| i).collect();
-                if cands.is_empty() {
-                    continue;
-                }
-                let hi = cands[r.usize_below(cands.len())];
-                let h = &nodes[hi];
-                if h.size < h.hdr + 24 {
-                    continue;
-                }
-                let mut handler = [0u8; 4];
-                handler.copy_from_slice(&img[h.body() + 8..h.body() + 12]);
-                let name = g_text(&mut r);
-                let nb = hdlr_box(&handler, &name);
-                let (st, sz) = (h.start, h.size);
-                splice(&mut img, &nodes, h.parent, st, sz, &nb);
-            }
-            6 => {
-                // edit list inside a trak (version 0 or 1, 0-3 entries)
-                let Some(ti) = nodes.iter().position(|n| n.is(b"trak")) else { continue };
-                let v1 = r.chance(1, 2);
-                let n = r.below(4) as u32;
-                let mut b = Vec::new();
-                b.extend_from_slice(&n.to_be_bytes());
-                for _ in 0..n {
-                    if v1 {
-                        b.extend_from_slice(&r.next_u64().to_be_bytes());
-                        b.extend_from_slice(&(r.next_u64() >> 1).to_be_bytes());
-                    } else {
-                        b.extend_from_slice(&r.next_u32().to_be_bytes());
-                        b.extend_from_slice(&(r.next_u32() >> 1).to_be_bytes());
-                    }
-                    b.extend_from_slice(&1u16.to_be_bytes());
-                    b.extend_from_slice(&0u16.to_be_bytes());
-                }
-                let edts = bx(b"edts", &full(b"elst", v1 as u8, 0, &b));
-                let at = nodes[ti].end();
-                splice(&mut img, &nodes, Some(ti), at, 0, &edts);
-            }
-            7 => {
-                // hvcC with parameter-set arrays (the muxer writes none)
-                let Some(hi) = nodes.iter().position(|n| n.is(b"hvcC")) else { continue };
-                let h = &nodes[hi];
-                if h.size < h.hdr + 23 {
-                    continue;
-                }
-                let mut body = img[h.body()..h.body() + 22].to_vec();
-                let narr = 1 + r.below(3) as u8;
-                body.push(narr);
-                for a in 0..narr {
-                    body.push(0x80 | (32 + a));
-                    let nn = 1 + r.below(2) as u16;
-                    body.extend_from_slice(&nn.to_be_bytes());
-                    for _ in 0..nn {
-                        let l = r.below(24) as u16;
-                        body.extend_from_slice(&l.to_be_bytes());
-                        let mut d = vec![0u8; l as usize];
-                        r.fill(&mut d);
-                        body.extend_from_slice(&d);
-                    }
-                }
-                let nb = bx(b"hvcC", &body);
-                let (st, sz) = (h.start, h.size);
-                splice(&mut img, &nodes, h.parent, st, sz, &nb);
-            }
-            8 => {
-                // an extra trak-level 'tref' / moov-level 'iods' style unknown boxes
-                let unk = bx(if r.chance(1, 2) { b"iods" } else { b"tref" }, &vec![0u8; 4 + r.below(12) as usize]);
-                let at = nodes[mi].end();
-                splice(&mut img, &nodes, Some(mi), at, 0, &unk);
-            }
-            0 | 1 => {
-                let udta = bx(b"udta", &meta_box(&mut r));
-                let at = nodes[mi].end();
-                splice(&mut img, &nodes, Some(mi), at, 0, &udta);
-            }
-            2 => {
-                let m = meta_box(&mut r);
-                let at = nodes[mi].end();
-                splice(&mut img, &nodes, Some(mi), at, 0, &m);
-            }
-            3 => {
-                // free box at a random child boundary of a random container
-                let conts: Vec<usize> = nodes.iter().enumerate().filter(|(_, n)| n.kids.is_some() && n.start >= nodes[mi].start && !n.is(b"stsd") && !n.is(b"dref")).map(|(i, _)| i).collect();
-                if conts.is_empty() {
-                    continue;
-                }
-                let ci = conts[r.usize_below(conts.len())];
-                // behind the last child or in front of the first one (a parser that expects a
-                // particular first child then takes its "something else comes first" path)
-                // (the library insists on hvcC as the first child of hev1: "hvcc not found")
-                let at = if r.chance(1, 2) || nodes[ci].is(b"hev1") { nodes[ci].end() } else { nodes[ci].kids.map(|k| k.0).unwrap_or(nodes[ci].end()) };
-                let f = bx(if r.chance(1, 2) { b"free" } else { b"skip" }, &vec![0u8; r.below(9) as usize]);
-                splice(&mut img, &nodes, Some(ci), at, 0, &f);
-            }
-            4 => {
-                // 64-bit size header on a random box inside moov (or moov itself)
-                let cands: Vec<usize> = nodes.iter().enumerate().filter(|(_, n)| n.start >= nodes[mi].start && n.hdr == 8).map(|(i, _)| i).collect();
-                if cands.is_empty() {
-                    continue;
-                }
-                let bi = cands[r.usize_below(cands.len())];
-                let n = &nodes[bi];
-                let mut h = Vec::new();
-                h.extend_from_slice(&1u32.to_be_bytes());
-                h.extend_from_slice(&n.typ);
-                h.extend_from_slice(&((n.size + 8) as u64).to_be_bytes());
-                // replace the 8-byte header by the 16-byte one; ancestors grow by 8
-                let start = n.start;
-                splice(&mut img, &nodes, n.parent, start, 8, &h);
-            }
-            _ => {
-                // wrap esds of an mp4a entry into a QuickTime 'wave' box
-                let Some(ei) = nodes.iter().position(|n| n.is(b"esds")) else { continue };
-                let e = &nodes[ei];
-                let esds = img[e.start..e.end()].to_vec();
-                let wave = bx(b"wave", &cat(&[&bx(b"frma", b"mp4a"), &esds, &bx(&[0, 0, 0, 0], &[])]));
-                let (s, l) = (e.start, e.size);
-                splice(&mut img, &nodes, e.parent, s, l, &wave);
-            }
-        }
+        let v = r.below(11);
+        meta_edit(&mut img, &mut r, v);
     }
     img
 }
@@ -938,6 +997,7 @@ pub fn build(spec: &SeedSpec) -> SeedImage {
         SeedSpec::Hybrid { seed } => SeedImage { bytes: hybrid_image(*seed), init_len: None },
         SeedSpec::Nest { seed } => SeedImage { bytes: nest_image(*seed), init_len: None },
         SeedSpec::BigTable { seed } => SeedImage { bytes: big_table_image(*seed), init_len: None },
+        SeedSpec::MetaAll { seed } => SeedImage { bytes: meta_all_image(*seed), init_len: None },
         SeedSpec::Scale { seed } => {
             let (b, l) = scale_image(*seed);
             SeedImage { bytes: b, init_len: l }
